@@ -211,6 +211,18 @@ class Parser:
         if self.at("KW", "FROM"):
             self.eat()
             src = self.source()
+            # un-parenthesised join chain (the record-transform SQL: FROM ( ... ) a CROSS JOIN ( ... ) b)
+            while self.at("KW") and self.peek()[1] in ("CROSS", "INNER", "LEFT", "RIGHT", "FULL", "JOIN"):
+                jt = []
+                while not self.at("KW", "JOIN"):
+                    jt.append(self.eat("KW")[1])
+                self.eat("KW", "JOIN")
+                right = self.source()
+                on = None
+                if self.at("KW", "ON"):
+                    self.eat()
+                    on = self.expr()
+                src = ("join", " ".join(jt), src, right, on)
         where = group = order = limit = None
         if self.at("KW", "WHERE"):
             self.eat()
@@ -248,6 +260,16 @@ class Parser:
             break
         return order
 
+    def alias(self):
+        """optional source alias: a quoted identifier or a bare word that is not a keyword of the grammar"""
+        if self.at("ID"):
+            return self.eat("ID")[1]
+        if self.at("KW") and self.peek()[1] not in RESERVED and self.peek()[1] not in ("OUTER", "NATURAL", "USING", "WINDOW"):
+            pos = self.i
+            self.eat()
+            return getattr(self.t, "orig", {}).get(pos)
+        return None
+
     def source(self):
         if self.at("OP", "("):
             self.eat()
@@ -257,7 +279,7 @@ class Parser:
                 try:
                     q = self.select_union()
                     self.eat("OP", ")")
-                    alias = self.eat("ID")[1] if self.at("ID") else None
+                    alias = self.alias()
                     return ("sub", q, alias)
                 except SQLParseError:
                     if not (self.t[save] == ("OP", "(")):
@@ -276,7 +298,7 @@ class Parser:
             self.eat("OP", ")")
             return ("join", " ".join(jt), left, right, on)
         name = self.eat("ID")[1]
-        alias = self.eat("ID")[1] if self.at("ID") else None
+        alias = self.alias()
         return ("table", name, alias)
 
     # expressions: OR < AND < NOT < comparison/IS/IN < || + - < * / % < unary < atom
@@ -692,6 +714,8 @@ class Interp:
                     return Cell(FALSE, PINF if not sv.as_string().startswith("-") else NINF, "f")
                 raise Unmodelled("CAST string AS float")
             return C.coerce(a, "f")
+        if ty in ("VARCHAR", "TEXT", "STRING", "CHAR") and a.kind == "s":
+            return a  # a string stays itself (number -> text formatting is outside the model)
         raise Unmodelled(f"CAST AS {ty}")
 
     # ------------------------------------------------------------ functions
